@@ -24,6 +24,7 @@ const (
 	KValidate     = "validate"      // expr.Validate(e)
 	KUnmarshal    = "unmarshal"     // json.Unmarshal(doc, &fresh)
 	KNewDriver    = "newdriver"     // driver.NewPostgresDriver()  (reads driver.Shared)
+	KEditPrint    = "editprint"     // private tree: print/render, legally edit a leaf, print/render again; must equal a fresh clone's output
 	KSpawn        = "spawn"         // start a late task
 	KPublish      = "publish"       // build a shared expression mid-run and publish it (atomic.Pointer)
 )
@@ -60,6 +61,8 @@ type Op struct {
 	Priv   *ExprSpec `json:"priv,omitempty"`   // private subject
 	Fresh  bool      `json:"fresh,omitempty"`  // render with a fresh NewPostgresDriver() instead of the shared driver value
 	MapDrv bool      `json:"mapdrv,omitempty"` // render with driver.Base{RenderFNs: driver.Shared} (the exported table itself)
+	Sparse bool      `json:"sparse,omitempty"` // custom render with a driver that knows only a few operators (error paths in mid-tree)
+	Copy   bool      `json:"copy,omitempty"`   // operate on a shallow VALUE copy of the subject (children still shared)
 	Fault  *Fault    `json:"fault,omitempty"`  // callback fault (custom driver operations only)
 	Target int       `json:"target,omitempty"` // spawn: task to start
 }
@@ -454,11 +457,11 @@ func genExprSpec(r *zsimrt.Rand, c *corpus, renderBias bool) ExprSpec {
 }
 
 var (
-	kindsAll       = []string{KParse, KParse, KToPG, KToParam, KRender, KRenderParam, KRenderParam, KCRender, KCRenderParam, KString, KGoString, KSprint, KMarshal, KMarshalDir, KValidate, KUnmarshal, KNewDriver}
+	kindsAll       = []string{KEditPrint, KParse, KParse, KToPG, KToParam, KRender, KRenderParam, KRenderParam, KCRender, KCRenderParam, KString, KGoString, KSprint, KMarshal, KMarshalDir, KValidate, KUnmarshal, KNewDriver}
 	kindsRender    = []string{KRender, KRenderParam, KRenderParam, KCRender, KCRenderParam, KToPG, KToParam, KString}
 	kindsParse     = []string{KParse, KParse, KParse, KToPG, KToParam, KUnmarshal, KValidate}
-	kindsPrint     = []string{KString, KGoString, KSprint, KMarshal, KMarshal, KMarshalDir, KValidate, KUnmarshal, KRenderParam}
-	kindsSubj      = []string{KRender, KRender, KRenderParam, KRenderParam, KCRender, KCRenderParam, KString, KGoString, KSprint, KMarshal, KMarshalDir, KValidate}
+	kindsPrint     = []string{KEditPrint, KString, KGoString, KSprint, KMarshal, KMarshal, KMarshalDir, KValidate, KUnmarshal, KRenderParam}
+	kindsSubj      = []string{KEditPrint, KRender, KRender, KRenderParam, KRenderParam, KCRender, KCRenderParam, KString, KGoString, KSprint, KMarshal, KMarshalDir, KValidate}
 	kindsRenderish = []string{KRender, KRender, KRender, KRender, KRenderParam, KRenderParam, KRenderParam, KCRender, KCRenderParam, KString, KMarshal, KValidate}
 	kindsGlobal    = []string{KParse, KParse, KToPG, KToPG, KToParam, KToParam, KNewDriver, KUnmarshal}
 )
@@ -502,6 +505,11 @@ func genOp(r *zsimrt.Rand, c *corpus, sc *Scenario, bias, faultPerm, hot int) Op
 		return op
 	}
 	// operations with an expression subject
+	if op.Kind == KEditPrint {
+		sp := genExprSpec(r, c, true)
+		op.Priv = &sp
+		return op
+	}
 	if len(sc.Shared) > 0 && (bias == 4 || bias == 6 || r.Intn(5) != 0) {
 		if sc.Contend && (bias == 4 || r.Intn(6) != 0) {
 			op.Shared = hot
@@ -516,7 +524,10 @@ func genOp(r *zsimrt.Rand, c *corpus, sc *Scenario, bias, faultPerm, hot int) Op
 	case KRender, KRenderParam:
 		op.Fresh = r.Intn(4) == 0 || sc.Cold // cold: no driver value exists before the run
 		op.MapDrv = !op.Fresh && r.Intn(6) == 0
+	case KString, KGoString, KSprint, KMarshal, KMarshalDir, KValidate:
+		op.Copy = r.Intn(5) == 0
 	case KCRender, KCRenderParam:
+		op.Sparse = r.Intn(6) == 0
 		if faultPerm > 0 && r.Intn(1000) < faultPerm*3 {
 			kinds := []string{FError, FError, FPanic, FPanic, FSlow, FSlow, FExit}
 			op.Fault = &Fault{Kind: kinds[r.Intn(len(kinds))], At: 1 + r.Intn(4)}
